@@ -1206,6 +1206,12 @@ class Lowerer:
             return self.rv(args[0])
         if t[0] == 'ostream' and not args:
             return self.tmp(t)
+        if t[0] == 'vec' and len(args) == 1:
+            at = self.ntype(args[0])
+            at = at[1] if at[0] == 'ref' else at
+            if at == t:
+                # copy construction of a std::vector: fresh storage of the same size (element-wise copy is a library contract)
+                return ('lib', t, 'vec_copy', [self.addr_of(self.lv(args[0]))])
         if t[0] != 'rec':
             raise Unsupported('construction of %s' % (t,))
         ctor = self.find_ctor(n, t[1])
